@@ -406,3 +406,20 @@ Proof.
     destruct (run_history_plain r (if ok2 then m1 else m)) as [rest2 mf].
     destruct IH as (-> & ?). auto.
 Qed.
+
+(* ---------- non-vacuity ---------- *)
+(* a coherent state with a non-empty cache (one present, one known-absent entry) *)
+Example coherent_nontrivial :
+  coherent {| st_store := [((1, 2), [3; 4])]; st_cache := [((1, 2), Some [3; 4]); ((1, 5), None)] |}.
+Proof.
+  intros k v H. unfold st_cache, st_store in *. unfold pget in *.
+  destruct (pkey_eqb_spec (1, 2) k) as [<-|N1].
+  - injection H as <-. reflexivity.
+  - destruct (pkey_eqb_spec (1, 5) k) as [<-|N2]; [|discriminate]. injection H as <-. reflexivity.
+Qed.
+(* a stale cache entry is NOT coherent, and the cached interpreter then really differs from the
+   plain map: the invariant is needed *)
+Example stale_cache_differs :
+  let st := {| st_store := [((1, 2), [3])]; st_cache := [((1, 2), Some [9])] |} in
+  fst (fst (fst (run_l1 64 (KRead 1 2 (fun v => KRet v)) st))) <> fst (fst (run_plain 64 (KRead 1 2 (fun v => KRet v)) (abs st))).
+Proof. vm_compute. congruence. Qed.
